@@ -49,7 +49,8 @@ def _gen_thread(rw: Any, tid: int, cfg: Dict[str, Any], shape_seed: Optional[int
         text = gen.gen_expr(er, decls, salt=text_salt, depth=er.choice([1, 2, 2, 3, 3, 4]),
                             invalid_share=0.02, host=[h for h in host if h != "size"],
                             deep_share=cfg["deep_share"],
-                            features=(cfg["features"] + ["size"]) if cfg["shadow_size"] else cfg["features"])
+                            features=cfg["features"] + (["size"] if cfg["shadow_size"] else [])
+                            + (["host"] if [h for h in host if h != "size"] else []))
         ops.append({"op": "K", "id": p, "env": 0, "text": text, "host": host})
         fspec = None
         if host and bound:
